@@ -126,6 +126,7 @@ def run(tier, seed):
                 values_by_cid[cid] = v
         res = drv.run_parallel(b.exe, cases, confirm=False)
         corpus = {}     # (tname, syn) -> list of bytes
+        unkseeds = set()
         from . import variants
         from ..asn import der as _der
         enc_ = _der.Encoder(b.mod)
@@ -139,6 +140,27 @@ def run(tier, seed):
                 tree = enc_.tree(t, v_)
                 for fam, vb in (variants.ber_variants(rng, tree, 1) + variants.ber_semantic_variants(rng, b.mod, t, v_, enc_, 2))[:4]:
                     corpus[(tname, "BER")].append(vb)
+            except Exception:
+                pass
+            # unknown extension additions in constructed, indefinite-length form with nested TLVs: the BER skipping code
+            # (ber_skip_length); kept short so that every truncation point is tried
+            try:
+                class _Always:
+                    def __init__(self, r): self.r = r
+                    def random(self): return 0.0
+                    def choice(self, x): return self.r.choice(x)
+                    def randrange(self, *a): return self.r.randrange(*a)
+                    def getrandbits(self, n): return self.r.getrandbits(n)
+                    def sample(self, a, k): return self.r.sample(a, k)
+                    def shuffle(self, a): return self.r.shuffle(a)
+                e2 = _der.Encoder(b.mod, unknown_ext=_Always(rng))
+                tr2 = e2.tree(t, values_by_cid[cid])
+                if "unknown-ext" in e2.used:
+                    for mode in ("unk", "all"):
+                        xb2 = _der.serialize(tr2, lambda nd, d, mode=mode: {"indef": nd.constructed and (mode == "all" or getattr(nd, "unknown_ext", False))})
+                        if len(xb2) <= 420:
+                            corpus.setdefault((tname, "BER"), []).append(xb2)
+                            unkseeds.add(xb2)
             except Exception:
                 pass
             # the value as a peer with a later version of the type sends it (unknown extension additions): seeds that reach
@@ -161,9 +183,14 @@ def run(tier, seed):
         pool = [x for xs in corpus.values() for x in xs]
         for (tname, syn), xs in corpus.items():
             t = b.mod.types[tname]
-            for x in (xs[:2] + xs[-3:] if quick else xs[:12]):
+            sel = (xs[:2] + xs[-3:] if quick else xs[:12])
+            sel += [x for x in xs if x in unkseeds and x not in sel][: 2 if quick else 6]
+            for x in sel:
                 muts = mutate(rng, x, pool, nmut)
-                if quick and len(muts) > 60:
+                if x in unkseeds:
+                    # every truncation point, and each of them with the last length octet before it raised by 1..3
+                    muts = [("trunc", x[:o]) for o in range(len(x))] + [m for m in muts if m[0] != "trunc"][:20]
+                elif quick and len(muts) > 60:
                     muts = rng.sample(muts, 60)
                 for mk, mb in muts:
                     cid += 1
